@@ -70,3 +70,11 @@ Check (eq_refl : final_state = fun prog filters raw appf imgc oc sc =>
     | [] => st
     | cl :: t => final_state fuel t (snd (do_call (cfg_fixed oc sc) prog filters raw appf imgc fuel cl st))
     end).
+Check C12_serving_cached_errors_refuted : forall (serve : N -> bool) (k : N),
+  serve k = true ->
+  exists (prog : tytag -> ref -> comp) (rank : ref -> nat) (fuel : nat) (ty1 ty2 : tytag) (r : ref),
+    acyclic prog rank /\
+    let first := get_gen (cfg_fixed true true) prog serve fuel [] ty1 r init in
+    fst (get_gen (cfg_fixed true true) prog serve fuel [] ty2 r (snd first))
+    <> fst (get no_cache prog fuel [] ty2 r init).
+Check (eq_refl : get = fun c prog => get_gen c prog (fun _ => negb (fix_b c))).
